@@ -1177,7 +1177,7 @@ dt_strfd(char *restrict buf, size_t bsz, const char *fmt, struct dt_d_s that)
 			bp += __strfd_card(bp, eo - bp, spec, &d, that);
 			if (spec.ord) {
 				bp += __ordtostr(bp, eo - bp);
-			} else if (spec.bizda) {
+			} else if (spec.bizda && bp < eo) {
 				/* don't print the b after an ordinal */
 				if (spec.ab == BIZDA_AFTER) {
 					*bp++ = 'b';
@@ -1377,7 +1377,7 @@ dt_strfddur(char *restrict buf, size_t bsz, const char *fmt, struct dt_ddur_s th
 	/* assign and go */
 	bp = buf;
 	fp = fmt;
-	if (that.neg) {
+	if (that.neg && bsz > 1U) {
 		*bp++ = '-';
 	}
 	for (char *const eo = buf + bsz; *fp && bp < eo;) {
@@ -1389,7 +1389,7 @@ dt_strfddur(char *restrict buf, size_t bsz, const char *fmt, struct dt_ddur_s th
 			*bp++ = *fp_sav;
 		} else if (LIKELY(!spec.rom)) {
 			bp += __strfd_dur(bp, eo - bp, spec, &d, that);
-			if (spec.bizda) {
+			if (spec.bizda && bp < eo) {
 				/* don't print the b after an ordinal */
 				if (d.flags.ab == BIZDA_AFTER) {
 					*bp++ = 'b';
